@@ -1,7 +1,7 @@
 CONSTANTS
   W = 4
   H = 4
-  Scenarios <- MCScenariosHand
+  Scenarios <- MCScenariosTwo
   InitGrid <- MCInitGrid
   SetPool <- MCSetPoolTwo
   MaxChanged = 2
